@@ -867,6 +867,7 @@ func checkC04(c *Ctx) {
 	c.Clause("the status the passive check sees is the last one the backend wrote; probe goroutines started in a loop own their loop variable (module Go version < 1.22); the ejection window is the configured unhealthy_timeout on every path")
 	c.Clause("a name identifies one backend: AddBackend refuses a name that is already listed before it changes anything, so the state kept per name (metrics health mirror, passive failure count) describes that backend only")
 	c.Clause("the in-flight gauge least_connections ranks by changes only by ±1 at request start and end in the forwarding function (a pick rejected by the health re-check leaves no mark): a recovered backend is not starved by a phantom connection")
+	c.Clause("a flag claimed by an atomic compare-and-swap (one probe per backend at a time) has its deferred release registered before every return of the releasing function: no early return leaves a backend unprobed for ever")
 	c.NotDecided("exact window arithmetic; bounded interleavings of event histories; what the JSON endpoints print")
 
 	lockDiscipline(c, func(k string) bool {
@@ -881,6 +882,7 @@ func checkC04(c *Ctx) {
 	// "actually receives traffic again under every strategy": least_connections ranks by the in-flight
 	// gauge, so a gauge that a rejected pick or an ejection leaves off by one starves the recovered backend
 	c.gaugeWriters()
+	c.claimedFlagReleased()
 	c.probeEdges()
 	c.healthMirror()
 	c.recoveryIndependent()
